@@ -1,6 +1,7 @@
 import OptunaVerif.Props.C15Gen
 import OptunaVerif.Props.C15
 import OptunaVerif.Lemmas.RankBridge
+import OptunaVerif.Lemmas.RankBridge2
 /-!
 # C15 (translator tie, part 2) — the hypervolume theorems of `Props/C15.lean`, restated for the interpreters of the generated IR
 
@@ -186,9 +187,10 @@ example : topGen Generated.HsspMethods.prog.top (fun _ _ _ => []) [[1, 1], [1, 1
 `Props/C15Gen.lean` proves the interpreters equal to the flag-free array references (`gen_calculate_rank_eq`, `gen_fast_rank_eq`, all inputs);
 `Lemmas/RankBridge.lean` proves the array reference of `_calculate_nondomination_rank` (scatter writes through index arrays) equal to the hand
 model `Rank.calcRank` (table unique row ↦ rank), with `_is_pareto_front(·, True)` = `frontSorted` and the loop bound `n_unique`.  So the rank
-theorems of `Props/C15.lean` hold of the code as generated.  `…_partial`: the CONSTRAINED branch of `_fast_non_domination_rank` is carried to
-the three-scatter reference `fastRef` (C15Gen); its identification with `Rank.fastRank` is not proved (it is compared on every generated
-case by the driver's "gen" field). -/
+theorems of `Props/C15.lean` hold of the code as generated.  The CONSTRAINED branch of `_fast_non_domination_rank` is carried to the
+three-scatter reference `fastRef` (C15Gen) and `Lemmas/RankBridge2.lean` identifies that with `Rank.fastRank` (`fastRef_eq_fastRank`: the offset
+of the third group is a maximum over an interleaved selection, the hand model's over a concatenation — `maxInitOf_congr`), for every
+penalty vector of the right length (NaN entries, empty groups) and every `n_below`. -/
 
 open OptunaVerif.RankIR in
 /-- **gen_calculate_rank_eq_hand** — `_calculate_nondomination_rank` as generated = the hand model, rows of `d` columns, every `n_below` -/
@@ -268,44 +270,121 @@ theorem gen_fast_rank_unconstrained (d : Nat) (S : List Pt) (hS : ∀ q ∈ S, q
         simp [nbOr, h0]
 
 open OptunaVerif.RankIR in
-/-- **gen_fast_rank_constrained_partial** — the constrained branch as generated, calling the generated callee: the three-scatter reference
-(`fastRef`: feasible rows by domination; infeasible rows AFTER every feasible rank, by the penalty alone; rows without penalty information
-AFTER every rank given so far; `n_below` reduced by the sizes of the groups already ranked), each callee result being the hand model's
-`calcRank` of that group.  PARTIAL: `fastRef = Rank.fastRank` is not proved here (hence `C15.rank_constrained_eq_spec` is not restated);
-the two are compared on every generated case by the driver (`"gen"` of the `rank` op). -/
-theorem gen_fast_rank_constrained_partial (d : Nat) (S : List Pt) (hS : ∀ q ∈ S, q.length = d) (pen : List (Option Int)) (nb : Option Int) :
-    fastGen Generated.RankMethods.prog (C15Gen.calcCallee frontH) d S (.pen pen) (nbRV nb) =
-      fastRef (fun d' m n => calcRef frontH (uniqueLex m).length d' m (some n)) d S (some pen) nb ∧
-    (∀ (m : List Bool) n, calcRef frontH (uniqueLex (selMask S m)).length d (selMask S m) (some n) =
-        (calcRank d (selMask S m) (some n)).map Int.ofNat) ∧
-    (∀ (q : List (Option Int)) n, calcRef frontH (uniqueLex (newaxisOf q)).length 1 (newaxisOf q) (some n) =
-        (calcRank 1 (newaxisOf q) (some n)).map Int.ofNat) := by
-  refine ⟨C15Gen.gen_fast_rank_eq_calc frontH d S (some pen) nb, ?_, ?_⟩
-  · intro m n
-    refine calcRef_eq_calcRank d _ ?_ (some n)
-    intro q hq
-    have hsub : ∀ (l : List Pt) (b : List Bool), ∀ x ∈ selMask l b, x ∈ l := by
-      intro l
-      induction l with
-      | nil => intro b x hx; cases b <;> simp [selMask] at hx
-      | cons a t ih =>
-        intro b x hx
-        cases b with
-        | nil => simp [selMask] at hx
-        | cons c cs =>
-          cases c
-          · simp only [selMask] at hx; exact List.mem_cons_of_mem _ (ih cs x hx)
-          · simp only [selMask, List.mem_cons] at hx
-            rcases hx with rfl | hx
-            · exact List.mem_cons_self ..
-            · exact List.mem_cons_of_mem _ (ih cs x hx)
-    exact hS q (hsub S m q hq)
-  · intro q n
-    refine calcRef_eq_calcRank 1 _ ?_ (some n)
-    intro r hr
-    simp only [newaxisOf, List.mem_map] at hr
-    obtain ⟨v, _, rfl⟩ := hr
-    rfl
+/-- **gen_fast_rank_constrained** — `_fast_non_domination_rank` as generated, calling the generated `_calculate_nondomination_rank`, WITH
+penalties: the hand model `Rank.fastRank`, for every array (no rows included), every penalty vector of that length (NaN entries; an empty
+feasible, infeasible or NaN group), every `n_below`. -/
+theorem gen_fast_rank_constrained (d : Nat) (S : List Pt) (hS : ∀ q ∈ S, q.length = d) (pen : List (Option Int))
+    (hlen : pen.length = S.length) (nBelow : Option Nat) :
+    fastGen Generated.RankMethods.prog (C15Gen.calcCallee frontH) d S (.pen pen) (nbRV (nBelow.map Int.ofNat)) =
+      .ints (((fastRank d S (some pen) nBelow).getD []).map Int.ofNat) := by
+  have h := C15Gen.gen_fast_rank_eq_calc frontH d S (some pen) (nBelow.map Int.ofNat)
+  simp only [penRV] at h
+  rw [h]
+  exact fastRef_eq_fastRank d S hS pen hlen nBelow
+
+open OptunaVerif.RankIR in
+/-- the length mismatch is the ValueError -/
+theorem gen_fast_rank_length_mismatch (d : Nat) (S : List Pt) (hne : S ≠ []) (pen : List (Option Int)) (hlen : pen.length ≠ S.length)
+    (nBelow : Option Nat) :
+    fastGen Generated.RankMethods.prog (C15Gen.calcCallee frontH) d S (.pen pen) (nbRV (nBelow.map Int.ofNat)) = .valueError := by
+  have h := C15Gen.gen_fast_rank_eq_calc frontH d S (some pen) (nBelow.map Int.ofNat)
+  simp only [penRV] at h
+  rw [h]
+  unfold fastRef
+  have hS0 : ¬ S.length = 0 := fun e => hne (List.length_eq_zero_iff.mp e)
+  have hpos : 0 < nbOr (nBelow.map Int.ofNat) S.length := by
+    cases nBelow with
+    | none => simp only [Option.map_none, nbOr]; omega
+    | some n => by_cases h0 : n = 0 <;> simp [nbOr, h0] <;> omega
+  simp [hS0, hpos, hlen]
+
+open OptunaVerif.RankIR in
+/-- **gen_rank_constrained_eq_spec** — with penalties (`none` = NaN) and no `n_below`, the generated `_fast_non_domination_rank` ranks every row
+by repeated peeling under the constrained domination `CDom` (feasible before infeasible before unknown; Pareto dominance among feasible and among
+unknown rows; smaller penalty among infeasible rows). -/
+theorem gen_rank_constrained_eq_spec (d : Nat) (S : List Pt) (pen : List (Option Int))
+    (hS : ∀ q ∈ S, q.length = d) (hlen : pen.length = S.length) :
+    ∃ ρ : Row → Nat,
+      fastGen Generated.RankMethods.prog (C15Gen.calcCallee frontH) d S (.pen pen) .none_ = .ints ((S.zip pen).map (fun e => (ρ e : Int))) ∧
+      IsCPeeling (S.zip pen) ρ := by
+  obtain ⟨ρ, h1, h2⟩ := C15.rank_constrained_eq_spec d S pen hS hlen
+  refine ⟨ρ, ?_, h2⟩
+  have := gen_fast_rank_constrained d S hS pen hlen none
+  simp only [Option.map_none, nbRV] at this
+  rw [this, h1]
+  simp [List.map_map, Function.comp_def]
+
+open OptunaVerif.RankIR in
+/-- **gen_rank_groups_ordered** — every `n_below`: the result of the generated `_fast_non_domination_rank` is `ρ` row by row where
+* a feasible row has the rank the callee gives it inside the feasible group (the peeling rank of that group: `gen_rank_eq_peeling` /
+  `gen_rank_n_below_spec`), an infeasible row `topI +` its rank by penalty alone inside the infeasible group, a row without penalty
+  information `topN +` its rank inside that group;
+* every feasible row ranks STRICTLY before every infeasible row, and every feasible or infeasible row STRICTLY before every row without
+  penalty information. -/
+theorem gen_rank_groups_ordered (d : Nat) (S : List Pt) (pen : List (Option Int)) (hS : ∀ q ∈ S, q.length = d)
+    (hlen : pen.length = S.length) (hne : S ≠ []) (nBelow : Option Nat) :
+    ∃ (ρ : Row → Nat) (nb : Int) (topI topN : Nat),
+      fastGen Generated.RankMethods.prog (C15Gen.calcCallee frontH) d S (.pen pen) (nbRV (nBelow.map Int.ofNat)) =
+        .ints ((S.zip pen).map (fun e => (ρ e : Int))) ∧
+      (∀ e ∈ (S.zip pen), classify e.2 = .feasible → ρ e = rankFn d ((rowsOf .feasible (S.zip pen)).map (·.1)) (some nb) e.1) ∧
+      (∀ e ∈ (S.zip pen), classify e.2 = .infeasible → ρ e = topI + rankFn 1 (penaltyRows (S.zip pen)) (some (nb - (((rowsOf .feasible (S.zip pen)).map (·.1)).length : Int))) [e.2.getD 0]) ∧
+      (∀ e ∈ (S.zip pen), classify e.2 = .unknown → ρ e = topN + rankFn d ((rowsOf .unknown (S.zip pen)).map (·.1)) (some (nb - (((rowsOf .feasible (S.zip pen)).map (·.1)).length : Int) - ((penaltyRows (S.zip pen)).length : Int))) e.1) ∧
+      (∀ e ∈ (S.zip pen), ∀ e' ∈ (S.zip pen), classify e.2 = .feasible → classify e'.2 = .infeasible → ρ e < ρ e') ∧
+      (∀ e ∈ (S.zip pen), ∀ e' ∈ (S.zip pen), classify e.2 ≠ .unknown → classify e'.2 = .unknown → ρ e < ρ e') := by
+  have hemp : S.isEmpty = false := by cases S with | nil => exact absurd rfl hne | cons a t => rfl
+  obtain ⟨nb, hfr⟩ : ∃ nb, fastRank d S (some pen) nBelow = some ((S.zip pen).map (fastRankFn d (S.zip pen) nb)) :=
+    by
+    unfold fastRank
+    simp only [hemp, Bool.false_eq_true, if_false, hlen, ne_eq, not_true_eq_false]
+    exact ⟨_, rfl⟩
+  have hgen := gen_fast_rank_constrained d S hS pen hlen nBelow
+  rw [hfr] at hgen
+  refine ⟨fastRankFn d (S.zip pen) nb, nb, topRank (calcRank d ((rowsOf .feasible (S.zip pen)).map (·.1)) (some nb)), topRank ((calcRank d ((rowsOf .feasible (S.zip pen)).map (·.1)) (some nb)) ++ ((calcRank 1 (penaltyRows (S.zip pen)) (some (nb - (((rowsOf .feasible (S.zip pen)).map (·.1)).length : Int)))).map (· + topRank (calcRank d ((rowsOf .feasible (S.zip pen)).map (·.1)) (some nb))))), ?_, ?_, ?_, ?_, ?_, ?_⟩
+  · rw [hgen]; simp [List.map_map, Function.comp_def]
+  · intro e _ hc; simp only [fastRankFn, hc]
+  · intro e _ hc; simp only [fastRankFn, hc]
+  · intro e _ hc; simp only [fastRankFn, hc]
+  · intro e he e' he' hc hc'
+    have h1 : rankFn d ((rowsOf .feasible (S.zip pen)).map (·.1)) (some nb) e.1 ∈ (calcRank d ((rowsOf .feasible (S.zip pen)).map (·.1)) (some nb)) := by
+      simp only [calcRank]
+      exact List.mem_map.mpr ⟨e.1, List.mem_map.mpr ⟨e, (mem_rowsOf _ _ _).mpr ⟨he, hc⟩, rfl⟩, rfl⟩
+    have := topRank_lt _ _ h1
+    simp only [fastRankFn, hc, hc']
+    omega
+  · intro e he e' he' hc hc'
+    have hlt : fastRankFn d (S.zip pen) nb e < topRank ((calcRank d ((rowsOf .feasible (S.zip pen)).map (·.1)) (some nb)) ++ ((calcRank 1 (penaltyRows (S.zip pen)) (some (nb - (((rowsOf .feasible (S.zip pen)).map (·.1)).length : Int)))).map (· + topRank (calcRank d ((rowsOf .feasible (S.zip pen)).map (·.1)) (some nb))))) := by
+      apply topRank_lt
+      cases hcl : classify e.2 with
+      | unknown => exact absurd hcl hc
+      | feasible =>
+        apply List.mem_append_left
+        simp only [fastRankFn, hcl, calcRank]
+        exact List.mem_map.mpr ⟨e.1, List.mem_map.mpr ⟨e, (mem_rowsOf _ _ _).mpr ⟨he, hcl⟩, rfl⟩, rfl⟩
+      | infeasible =>
+        apply List.mem_append_right
+        simp only [fastRankFn, hcl, calcRank, List.map_map]
+        refine List.mem_map.mpr ⟨[e.2.getD 0], ?_, by simp [Nat.add_comm]⟩
+        simp only [penaltyRows]
+        exact List.mem_map.mpr ⟨e, (mem_rowsOf _ _ _).mpr ⟨he, hcl⟩, rfl⟩
+    simp only [fastRankFn, hc'] at hlt ⊢
+    omega
+
+open OptunaVerif.RankIR in
+-- non-vacuity: an empty feasible group, an empty infeasible group, all penalties NaN, one NaN next to ranked rows, no rows
+example : fastGen Generated.RankMethods.prog (C15Gen.calcCallee frontH) 2 [[0, 1], [1, 0], [1, 1]] (.pen [some 2, none, some 1]) .none_ =
+    .ints [1, 2, 0] := by decide
+open OptunaVerif.RankIR in
+example : fastGen Generated.RankMethods.prog (C15Gen.calcCallee frontH) 2 [[0, 1], [1, 0], [1, 1]] (.pen [some 0, none, some (-3)]) .none_ =
+    .ints [0, 2, 1] := by decide
+open OptunaVerif.RankIR in
+example : fastGen Generated.RankMethods.prog (C15Gen.calcCallee frontH) 2 [[0, 1], [1, 0], [1, 1]] (.pen [none, none, none]) .none_ =
+    .ints [0, 0, 1] := by decide
+open OptunaVerif.RankIR in
+-- the input on which seeded C15-2 fails: the NaN-penalty row must come after the feasible row although there is no infeasible row
+example : fastGen Generated.RankMethods.prog (C15Gen.calcCallee frontH) 2 [[6, 1], [5, 2]] (.pen [some (-1), none]) .none_ = .ints [0, 1] := by
+  decide
+open OptunaVerif.RankIR in
+example : fastGen Generated.RankMethods.prog (C15Gen.calcCallee frontH) 2 [] (.pen []) .none_ = .ints [] := by decide
 
 open OptunaVerif.RankIR in
 -- the input of seeded C15-2 (a NaN penalty next to ranked rows): the NaN-penalty row comes after every ranked row
